@@ -1,178 +1,9 @@
-import ESV.Comp.CgIf3
-import ESV.Comp.CgFor
+import ESV.Comp.CgSwitch4
 /-
-`codegen_correct`: the fragment, and the recursion over the statement tree.
+`codegen_correct`: the recursion over the statement tree.
 -/
 namespace ESV.Comp
 open ESV ESV.Beh
-
-/-- the statements of F0: plain operations, operations under a context, `return` / `end` / `hold` -/
-def cgSimple : Stmt → Bool
-  | .op n _ => nameOK n
-  | .inl c _ n _ => isCtx c && nameOK n && n != Gen.op_return
-  | .with_ c _ inner => isCtx c && f0Inner inner
-  | .ret => true
-  | .end_ => true
-  | .hold => true
-  | _ => false
-
-mutual
-/-- the statements `codegen_correct` covers, by level: always F0 (`cgSimple`) and if / elseif / else with any headers, `not`,
-empty blocks (F1); from level 2 on `forever` / `while` / `for` with `continue` and `break_loop` (F2; the init and increment
-statements of `for` are F0 statements) -/
-def cgStmt (lv : Nat) : Stmt → Bool
-  | .op n ps => cgSimple (.op n ps)
-  | .inl c cp n ps => cgSimple (.inl c cp n ps)
-  | .with_ c cp inner => cgSimple (.with_ c cp inner)
-  | .ret => true
-  | .end_ => true
-  | .hold => true
-  | .ite _ hdrs body elifs _ els => hdrs.all (fun h => isTest h.name) && cgStmts lv body && cgElifs lv elifs && cgStmts lv els
-  | .cont => decide (2 ≤ lv)
-  | .brkLoop => decide (2 ≤ lv)
-  | .forever body => decide (2 ≤ lv) && cgStmts lv body
-  | .while_ _ h body => decide (2 ≤ lv) && isTest h.name && cgStmts lv body
-  | .for_ init h inc body => decide (2 ≤ lv) && isTest h.name && cgSimple init && cgSimple inc && cgStmts lv body
-  | _ => false
-def cgStmts (lv : Nat) : Stmts → Bool
-  | .nil => true
-  | .cons s r => cgStmt lv s && cgStmts lv r
-def cgElifs (lv : Nat) : Elifs → Bool
-  | .nil => true
-  | .cons _ hdrs body r => hdrs.all (fun h => isTest h.name) && cgStmts lv body && cgElifs lv r
-end
-
-theorem simpleOK_congr {cx : Cx} {items : List LItem} {t1 t2 : Nat → Src.B → Src.B × Nat}
-    (h : SimpleOK cx items t1) (e : ∀ k b, t1 k b = t2 k b) : SimpleOK cx items t2 := by
-  have : t1 = t2 := by funext k b; exact e k b
-  rw [← this]; exact h
-
-theorem pieceOK_congr {cx : Cx} {items : List LItem} {s s' : St} {t1 t2 : Nat → Src.B → Src.B × Nat} {env : Src.Env}
-    (h : PieceOK cx items s s' t1 env) (e : ∀ k b, t1 k b = t2 k b) : PieceOK cx items s s' t2 env := by
-  have : t1 = t2 := by funext k b; exact e k b
-  rw [← this]; exact h
-
-theorem pm_congr {cx : Cx} {mc : M (List LItem)} {t1 t2 : Nat → Src.B → Src.B × Nat} {env : Src.Env}
-    (h : PM cx mc t1 env) (e : ∀ k b, t1 k b = t2 k b) : PM cx mc t2 env :=
-  fun s items s' hs => pieceOK_congr (h s items s' hs) e
-
-/-- a halting control statement is the op of its name -/
-theorem ctl_simple (cx : Cx) (fuel : Nat) (env : Src.Env) (he : PlainEnv env) (nm sn : String) (st : Src.Stmt)
-    (hn : nameOK nm = true) (hf : Beh.endsFlow nm = true) (hnm : nm = sn)
-    (htr : ∀ k b, Src.tr fuel [] env st k b = b.push (.halt ⟨sn, []⟩)) {s : St} {items : List LItem} {s' : St}
-    (h : opStmt nm [] s = .ok (items, s')) :
-    SimpleOK cx items (fun k b => Src.tr fuel [] env st k b) ∧ s'.loops = s.loops ∧ s'.cases = s.cases := by
-  subst hnm
-  obtain ⟨a, b, c⟩ := op_simple cx fuel nm [] hn h env he
-  refine ⟨simpleOK_congr a (fun k b => ?_), b, c⟩
-  rw [htr, Src.tr]
-  simp [hf, he.1, substEv_nil, convParams]
-
-/-- an op under a context: inline context, or a with-block -/
-theorem ctx_pm (cx : Cx) (fuel : Nat) (env : Src.Env) (he : PlainEnv env) (c : String) (cp : ESV.Param) (n : String) (ps : List ESV.Param)
-    (hc : isCtx c = true) (hn : nameOK n = true) (inner : Src.Stmt)
-    (hspec : ∀ k b, Src.afterCtxSpecial env inner k b = some (b.push (.emit ⟨n, convParams ps⟩ k)))
-    {mc : M (List LItem)}
-    (hmc : ∀ s items s', mc s = .ok (items, s') → ∃ oc oo, items = [.op ⟨oc, c, [cp]⟩, .op ⟨oo, n, ps⟩] ∧ SameStk s s')
-    {s : St} {items : List LItem} {s' : St} (h : mc s = .ok (items, s')) :
-    SimpleOK cx items (fun k b => Src.tr fuel [] env (.ctx c [convParam cp] inner) k b) ∧ s'.loops = s.loops ∧ s'.cases = s.cases := by
-  obtain ⟨oc, oo, rfl, hst⟩ := hmc s items s' h
-  refine ⟨ctx_simple cx c cp n ps hc hn oc oo _ (fun k b => ?_), hst.1, hst.2⟩
-  rw [Src.tr]
-  simp only [hspec, he.1, substEv_nil]
-
-theorem inl_shape {c : String} {cp : ESV.Param} {n : String} {ps : List ESV.Param} {s : St} {items : List LItem} {s' : St}
-    (h : inlStmt c cp n ps s = .ok (items, s')) : ∃ oc oo, items = [.op ⟨oc, c, [cp]⟩, .op ⟨oo, n, ps⟩] ∧ SameStk s s' := by
-  simp only [inlStmt, bind_ok, pure_ok] at h
-  obtain ⟨co, s1, h1, o, s2, h2, h3⟩ := h
-  simp only [Prod.mk.injEq] at h3
-  obtain ⟨rfl, rfl⟩ := h3
-  obtain ⟨rfl, rfl⟩ := genOp_spec h1
-  obtain ⟨rfl, rfl⟩ := genOp_spec h2
-  exact ⟨_, _, rfl, (sameStk_tickedOp _ _).trans (sameStk_tickedOp _ _)⟩
-
-theorem with_shape {c : String} {cp : ESV.Param} {n : String} {ps : List ESV.Param} {s : St} {items : List LItem} {s' : St}
-    (h : withOf c cp (opStmt n ps) s = .ok (items, s')) : ∃ oc oo, items = [.op ⟨oc, c, [cp]⟩, .op ⟨oo, n, ps⟩] ∧ SameStk s s' := by
-  simp only [withOf, bind_ok] at h
-  obtain ⟨co, s1, h1, sub, s2, h2, h3⟩ := h
-  obtain ⟨rfl, rfl⟩ := genOp_spec h1
-  simp only [opStmt, bind_ok, pure_ok] at h2
-  obtain ⟨o, s3, h4, h5⟩ := h2
-  simp only [Prod.mk.injEq] at h5
-  obtain ⟨rfl, rfl⟩ := h5
-  obtain ⟨rfl, rfl⟩ := genOp_spec h4
-  simp only [List.length_singleton, beq_self_eq_true, if_true, pure_ok, Prod.mk.injEq] at h3
-  obtain ⟨rfl, rfl⟩ := h3
-  exact ⟨_, _, rfl, (sameStk_tickedOp _ _).trans (sameStk_tickedOp _ _)⟩
-
-theorem patchNone_if (e : Nat) (c : Bool) (l : List LItem) : patchNone e (if c then l else []) = if c then patchNone e l else [] := by
-  cases c <;> rfl
-
-/-- the statements of F0 never look at the exits -/
-theorem simple_c (cx : Cx) (fuel : Nat) : ∀ (st : Stmt) (lb : Nat), cgSimple st = true → ∀ (env : Src.Env), PlainEnv env →
-    ∀ (s : St) (items : List LItem) (s' : St), cStmt [] lb st s = .ok (items, s') →
-    SimpleOK cx items (fun k b => Src.tr fuel [] env (toSrcStmt st) k b) ∧ s'.loops = s.loops ∧ s'.cases = s.cases
-  | .op n ps, lb, hg, env, he => by
-    intro s items s' h
-    simp only [cStmt, toSrcStmt] at h ⊢
-    exact op_simple cx fuel n ps (by simpa [cgSimple] using hg) h env he
-  | .ret, lb, _, env, he => by
-    intro s items s' h
-    simp only [cStmt, toSrcStmt] at h ⊢
-    exact ctl_simple cx fuel env he Gen.op_return ESV.Spec.op_return .ret ctl_names.1 ctl_names.2.2.2.1 ctl_names.2.2.2.2.2.2.1
-      (fun k b => by rw [Src.tr]; simp [he.2]) h
-  | .end_, lb, _, env, he => by
-    intro s items s' h
-    simp only [cStmt, toSrcStmt] at h ⊢
-    exact ctl_simple cx fuel env he Gen.op_end ESV.Spec.op_end .end_ ctl_names.2.1 ctl_names.2.2.2.2.1 ctl_names.2.2.2.2.2.2.2.1
-      (fun k b => by rw [Src.tr]) h
-  | .hold, lb, _, env, he => by
-    intro s items s' h
-    simp only [cStmt, toSrcStmt] at h ⊢
-    exact ctl_simple cx fuel env he Gen.op_hold ESV.Spec.op_hold .hold ctl_names.2.2.1 ctl_names.2.2.2.2.2.1 ctl_names.2.2.2.2.2.2.2.2
-      (fun k b => by rw [Src.tr]) h
-  | .inl c cp n ps, lb, hg, env, he => by
-    intro s items s' h
-    simp only [cgSimple, Bool.and_eq_true] at hg
-    simp only [cStmt, toSrcStmt] at h ⊢
-    exact ctx_pm cx fuel env he c cp n ps hg.1.1 hg.1.2 _ (fun k b => by simp [Src.afterCtxSpecial, he.1, substEv_nil])
-      (fun s items s' h => inl_shape h) h
-  | .with_ c cp inner, lb, hg, env, he => by
-    intro s items s' h
-    simp only [cgSimple, Bool.and_eq_true] at hg
-    cases inner with
-    | op n ps =>
-      simp only [f0Inner, Bool.and_eq_true] at hg
-      simp only [cStmt, toSrcStmt] at h ⊢
-      exact ctx_pm cx fuel env he c cp n ps hg.1 hg.2.1 _ (fun k b => by simp [Src.afterCtxSpecial, he.1, substEv_nil])
-        (fun s items s' h => with_shape h) h
-    | end_ =>
-      simp only [cStmt, toSrcStmt] at h ⊢
-      exact ctx_pm cx fuel env he c cp Gen.op_end [] hg.1 ctl_names.2.1 _
-        (fun k b => by simp [Src.afterCtxSpecial, convParams, ctl_names.2.2.2.2.2.2.2.1]) (fun s items s' h => with_shape h) h
-    | hold =>
-      simp only [cStmt, toSrcStmt] at h ⊢
-      exact ctx_pm cx fuel env he c cp Gen.op_hold [] hg.1 ctl_names.2.2.1 _
-        (fun k b => by simp [Src.afterCtxSpecial, convParams, ctl_names.2.2.2.2.2.2.2.2]) (fun s items s' h => with_shape h) h
-    | _ => simp [f0Inner] at hg
-  | .ite .., _, hg, _, _ => by simp [cgSimple] at hg
-  | .label _, _, hg, _, _ => by simp [cgSimple] at hg
-  | .jump _, _, hg, _, _ => by simp [cgSimple] at hg
-  | .call _, _, hg, _, _ => by simp [cgSimple] at hg
-  | .brk, _, hg, _, _ => by simp [cgSimple] at hg
-  | .cont, _, hg, _, _ => by simp [cgSimple] at hg
-  | .brkLoop, _, hg, _, _ => by simp [cgSimple] at hg
-  | .switch .., _, hg, _, _ => by simp [cgSimple] at hg
-  | .forever .., _, hg, _, _ => by simp [cgSimple] at hg
-  | .while_ .., _, hg, _, _ => by simp [cgSimple] at hg
-  | .for_ .., _, hg, _, _ => by simp [cgSimple] at hg
-  | .macroCall .., _, hg, _, _ => by simp [cgSimple] at hg
-
-theorem simple_pm (cx : Cx) (fuel : Nat) (st : Stmt) (lb : Nat) (hg : cgSimple st = true) (env : Src.Env) (he : PlainEnv env) :
-    PM cx (cStmt [] lb st) (fun k b => Src.tr fuel [] env (toSrcStmt st) k b) env := by
-  intro s items s' h
-  obtain ⟨a, b, c⟩ := simple_c cx fuel st lb hg env he s items s' h
-  exact a.piece b c env
 
 section main
 variable (cx : Cx) (fuel : Nat) (lv : Nat)
@@ -194,14 +25,20 @@ theorem cStmt_c : ∀ (st : Stmt) (lb : Nat), cgStmt lv st = true → ∀ (env :
   | .label _, _, hg, _, _ => by simp [cgStmt] at hg
   | .jump _, _, hg, _, _ => by simp [cgStmt] at hg
   | .call _, _, hg, _, _ => by simp [cgStmt] at hg
-  | .brk, _, hg, _, _ => by simp [cgStmt] at hg
+  | .brk, _, _, env, _ => by
+    simp only [cStmt, toSrcStmt]
+    exact brk_pm cx fuel env
   | .cont, _, _, env, _ => by
     simp only [cStmt, toSrcStmt]
     exact cont_pm cx fuel env
   | .brkLoop, _, _, env, _ => by
     simp only [cStmt, toSrcStmt]
     exact brkLoop_pm cx fuel env
-  | .switch .., _, hg, _, _ => by simp [cgStmt] at hg
+  | .switch hdr cs, lb, hg, env, he => by
+    simp only [cgStmt, Bool.and_eq_true, Bool.not_eq_true', decide_eq_true_eq] at hg
+    simp only [cStmt, toSrcStmt]
+    exact switch_pm cx fuel env he hdr cs _ hg.1.1.1.1.2 hg.1.1.1.2 (by intro h; rw [h] at hg; simp [Cases.isNil] at hg) hg.1.2
+      (cCases_c cs lb hdr.name hg.2)
   | .forever body, lb, hg, env, he => by
     simp only [cgStmt, Bool.and_eq_true] at hg
     simp only [cStmt, toSrcStmt]
@@ -290,6 +127,117 @@ theorem cElifsB_c : ∀ (es : Elifs) (lb : Nat), cgElifs lv es = true → ∀ (e
       · have hn : a.neg = neg := ha.1
         simp only [elifsBack, backOf, patchNone_append, hbk, hn]
         cases neg <;> rfl
+theorem cCases_c : ∀ (cs : Cases) (lb : Nat) (sw : String), cgCases lv sw cs = true →
+    CasesC cx fuel sw cs (fun endL bps st => cCases [] lb endL cs bps st)
+  | .nil, lb, sw, _ => by
+    intro env he endL bps st s st' s' _ _ _ h
+    simp only [cCases, pure_ok, Prod.mk.injEq] at h
+    obtain ⟨rfl, rfl⟩ := h
+    refine ⟨SameStk.refl _, id, [], [], by simp, by simp, fun x hx => by simp at hx, fun x hx => by simp at hx, fun hw => ?_⟩
+    rw [hw]
+    simp only [wSrc, toSrcCases]
+    exact sw_nil cx fuel env endL _ _ _
+  | .cons true n ps body r, lb, sw, hg => by
+    intro env he endL bps st s st' s' hb hw hnd h
+    simp only [cgCases, Bool.and_eq_true, Bool.not_eq_true'] at hg
+    simp only [cCases, bind_ok] at h
+    obtain ⟨st1, s1, h1, h2⟩ := h
+    have hcr : countDefaults r = 0 := by
+      simp only [countDefaults, if_true] at hnd
+      omega
+    have hwn : hasNone st.waiting = false := by
+      cases hh : hasNone st.waiting with
+      | false => rfl
+      | true => rw [hh] at hnd; simp only [countDefaults, if_true] at hnd; omega
+    cases body with
+    | nil =>
+      simp only [Stmts.isNil, defaultStep, ↓reduceIte, pure_ok, Prod.mk.injEq] at h1
+      obtain ⟨rfl, rfl⟩ := h1
+      have hw1 : WaitOK (st.wait none).waiting := by
+        intro bp hbp
+        simp only [SwSt.wait, List.mem_append, List.mem_singleton] at hbp
+        rcases hbp with hbp | hbp
+        · exact hw bp hbp
+        · cases hbp
+      obtain ⟨e, nnD, Hn, Cn, hH, hC, n1, n2, hsem⟩ := cCases_c r _ sw hg.2 env he endL bps (st.wait none) _ st' s' hb hw1
+        (by rw [hcr]; split <;> omega) h2
+      refine ⟨e, nnD, Hn, Cn, hH, hC, n1, n2, fun hw' => ?_⟩
+      have := hsem hw'
+      simpa [SwSt.wait, wSrc_append, wSrc, toSrcCases, toSrcStmts] using this
+    | cons b0 br =>
+      simp only [Stmts.isNil] at h1
+      obtain ⟨e1, hw1, hs, d1, sL, eB, ops, sa, sb, n0, hH1, hC1, hD1, ws, hP, la, ca⟩ :=
+        defaultStep_c cx fuel endL (.cons b0 br) (cStmts_ret lv _ lb hg.1.2 hg.1.1.2)
+          (fun env' he' => cStmts_c (.cons b0 br) lb hg.1.2 env' he') hw h1
+      obtain ⟨e2, nnD, Hr, Cr, hH2, hC2, n1, n2, hsem⟩ := cCases_c r _ sw hg.2 env he endL bps st1 s1 st' s' hb
+        (by rw [hw1]; intro bp hbp; simp at hbp) (by rw [hw1, hcr]; simp [hasNone]) h2
+      refine ⟨e1.trans e2, fun hd => nnD (by rw [hD1]; exact waitSem_nonone ws (noNone_jump _ _)), hs ++ Hr,
+        ([LItem.label sL false] ++ ops ++ [LItem.label eB false]) ++ Cr, by rw [hH2, hH1, List.append_assoc],
+        by rw [hC2, hC1, List.append_assoc], ws.nonone.append n1,
+        (((noNone_label _ _).append (hP {} ⟨rfl, rfl⟩).nonone).append (noNone_label _ _)).append n2, fun hw' => ?_⟩
+      have hR := (hsem hw').stk e1.1 e1.2
+      rw [hw1, hD1] at hR
+      simp only [wSrc] at hR
+      simp only [toSrcCases]
+      exact sw_default cx fuel env he endL s.loops s.cases st.waiting hs st.defaultOps d1 sL eB ops sa sb (.cons b0 br) n0 hP la ca ws hR
+        (fun k nt b => trCases_nodefault fuel (brkEnv env k) he.1 sw r k nt b (countDefaults_zero r hcr))
+  | .cons false n ps body r, lb, sw, hg => by
+    intro env he endL bps st s st' s' hb hw hnd h
+    simp only [cgCases, Bool.false_or, Bool.and_eq_true, Bool.not_eq_true'] at hg
+    cases bps with
+    | nil => exact absurd hb (by simp [BpsOK])
+    | cons bp bps' =>
+    simp only [BpsOK] at hb
+    obtain ⟨hbn, hbp, hbpos, hb'⟩ := hb
+    have htest : isTest bp.name = true := by rw [hbn]; exact hg.1.1.1.2
+    simp only [cCases, bind_ok] at h
+    obtain ⟨st1, s1, h1, h2⟩ := h
+    have hnd' : (if hasNone st.waiting then 1 else 0) + countDefaults r ≤ 1 := by
+      simpa [countDefaults] using hnd
+    cases body with
+    | nil =>
+      simp only [Stmts.isNil, caseStep, ↓reduceIte, pure_ok, Prod.mk.injEq] at h1
+      obtain ⟨rfl, rfl⟩ := h1
+      have hw1 : WaitOK (st.wait (some bp)).waiting := by
+        intro bp' hbp'
+        simp only [SwSt.wait, List.mem_append, List.mem_singleton, Option.some.injEq] at hbp'
+        rcases hbp' with hbp' | rfl
+        · exact hw bp' hbp'
+        · exact htest
+      have hn1 : hasNone (st.wait (some bp)).waiting = hasNone st.waiting := by
+        simp only [SwSt.wait]
+        generalize st.waiting = w
+        induction w with
+        | nil => rfl
+        | cons x w ih => cases x <;> simp [hasNone, ih]
+      obtain ⟨e, nnD, Hn, Cn, hH, hC, n1, n2, hsem⟩ := cCases_c r _ sw hg.2 env he endL bps' (st.wait (some bp)) _ st' s' hb' hw1
+        (by rw [hn1]; exact hnd') h2
+      refine ⟨e, nnD, Hn, Cn, hH, hC, n1, n2, fun hw' => ?_⟩
+      have := hsem hw'
+      simpa [SwSt.wait, wSrc_append, wSrc, toSrcCases, toSrcStmts, caseName, hbn, hbp] using this
+    | cons b0 br =>
+      simp only [Stmts.isNil] at h1
+      obtain ⟨e1, hw1, hs, d1, sL, eB, ops, sa, sb, n0, hH1, hC1, hD1, ws, hP, la, ca⟩ :=
+        caseStep_c cx fuel endL bp hbpos (.cons b0 br) (cStmts_ret lv _ lb hg.1.2 hg.1.1.2)
+          (fun env' he' => cStmts_c (.cons b0 br) lb hg.1.2 env' he') hw h1
+      have hcr : hasNone st.waiting = true → countDefaults r = 0 := by
+        intro hh; rw [hh] at hnd'; simp only [if_true] at hnd'; omega
+      obtain ⟨e2, nnD, Hr, Cr, hH2, hC2, n1, n2, hsem⟩ := cCases_c r _ sw hg.2 env he endL bps' st1 s1 st' s' hb'
+        (by rw [hw1]; intro bp hbp; simp at hbp) (by
+          rw [hw1]; simp only [hasNone, Bool.false_eq_true, if_false, Nat.zero_add]
+          split at hnd' <;> omega) h2
+      refine ⟨e1.trans e2, fun hd => nnD (by rw [hD1]; exact waitSem_nonone ws hd),
+        (hs ++ [LItem.ljump ⟨n0, bp.name, bp.params⟩ (some sL)]) ++ Hr,
+        ([LItem.label sL false] ++ ops ++ [LItem.label eB false]) ++ Cr, by rw [hH2, hH1, List.append_assoc],
+        by rw [hC2, hC1, List.append_assoc], (ws.nonone.append (noNone_jump _ _)).append n1,
+        (((noNone_label _ _).append (hP {} ⟨rfl, rfl⟩).nonone).append (noNone_label _ _)).append n2, fun hw' => ?_⟩
+      have hR := (hsem hw').stk e1.1 e1.2
+      rw [hw1, hD1] at hR
+      simp only [wSrc] at hR
+      simp only [toSrcCases]
+      have := sw_case cx fuel env he endL s.loops s.cases st.waiting hs st.defaultOps d1 sL eB ops sa sb (.cons b0 br) n0 bp htest hP la ca ws hR
+        (fun hh k nt b => trCases_nodefault fuel (brkEnv env k) he.1 sw r k nt b (countDefaults_zero r (hcr hh)))
+      simpa [caseName, hbn, hbp] using this
 end
 
 end main
